@@ -4,22 +4,25 @@
 //	        Continue / Step(into, over, out) / Terminate at every stop; observed: stdout, stderr, result, error,
 //	        every DebugEvent (reason, line of the frame position, number of closures executed so far — step hook)
 //	        and, after the session, the real control-flow graph of the compiled program (hook VerifC19Dump)
-//	model = Lean `drun` on the dumped graph (y=: the debugger of yaegi, which re-derives the node from the code
-//	        identity of closures; marks=: SetBreakpoints), driven by a tape of what every closure did, recorded by an
+//	model = Lean `drun` on the dumped graph (y=: the debugger of yaegi, which re-derives the node from the identity
+//	        of the closure objects — of their code, if the extracted facts say so; marks=: SetBreakpoints), driven
+//	        by a tape of what every closure did, recorded by an
 //	        instrumented plain run of the same program (hook VerifC19Instrument); g= the reference debugger that
 //	        knows the executing node (`ideal`)
 //	ref   = a plain run of the same program (output, result, panic), and the reference debugger written in Go
 //
 // Checked on every case: impl = plain (the core of the property); session framing (… exitG, terminate last);
 // impl events = y and breakpoint placement = marks (correspondence); Go reference = g (spec validation);
-// break events of impl = break events of the reference (the property; differences are labelled with the class
-// of the input: code-ambiguous-branch, back-edge-forwarding).
+// break events of impl = break events of the reference (the property). No class of inputs is excused any more
+// (F20 code-ambiguous-branch: fixed by d1e6c4c, F19-1 back-edge-forwarding: fixed by 3d77a98): every difference
+// is a VIOLATION.
 package main
 
 import (
 	"encoding/json"
 	"fmt"
 	"os"
+	"sort"
 	"strings"
 
 	"github.com/traefik/yaegi/interp"
@@ -33,12 +36,13 @@ type caseT struct {
 }
 
 type checker struct {
-	run      *common.Run
-	drv      *common.Driver
-	tramp    uintptr
-	plain    map[string]outcomeT
-	compErr  map[string]string
-	traceKey map[string]traceT
+	run       *common.Run
+	drv       *common.Driver
+	tramp     uintptr
+	plain     map[string]outcomeT
+	compErr   map[string]string
+	traceKey  map[string]traceT
+	stmtKinds map[string]map[int]string
 }
 
 type traceT struct {
@@ -57,6 +61,12 @@ type verdictT struct {
 	Class                 string
 	Stops                 int
 	Same                  bool // break events as the reference
+	SameCode              bool // some branch has two successors made by the same generator (the shape of F20)
+	Forwards              int  // hand-overs through forwarding closures (back edges, the shape of F19-1)
+	Crash                 bool // SetBreakpoints did not return
+	Visits                int  // visits of requested lines looked at
+	LateStops             int  // visits whose break stop comes after nodes of the line have executed
+	LineFindings          []string
 }
 
 // check runs one case; record=false is used for the replay of known findings.
@@ -72,6 +82,27 @@ func (ck *checker) check(c caseT, record bool) (v verdictT, ok bool) {
 		run.Errorf("generated program does not compile: %s\n%s", ce, c.Src)
 		return v, false
 	}
+	disagree := func(d common.Disagreement) {
+		if record {
+			d.Input = c
+			run.Disagree(d)
+		}
+	}
+	s := runDebug(c.Src, c.Bps, c.Cmds)
+	if s.Problem != "" && s.Out.Crash == "" {
+		s.Out.Crash = s.Problem
+	}
+	if s.BpCrash && s.Out.Crash != "" {
+		// SetBreakpoints did not return: there is no session to compare and nothing for the model to predict
+		// (the instrumented run, which applies the same requests, dies in the same way)
+		class := ""
+		if hasGenericFunc(c.Src) && hasLineRequest(c.Bps) {
+			class = "bp-line-request-with-generic-function"
+		}
+		disagree(common.Disagreement{Kind: "impl-vs-ref", Impl: "SetBreakpoints: " + s.Out.Crash, Ref: pl.String(), Finding: class,
+			Note: "SetBreakpoints does not return; the plain run of the program is fine"})
+		return verdictT{Class: class, Crash: true, BreaksImpl: "SetBreakpoints: " + s.Out.Crash, BreaksRef: "-"}, true
+	}
 	tk := c.Src + "\x00" + bpKey(c.Bps)
 	tr, seen := ck.traceKey[tk]
 	if !seen {
@@ -86,17 +117,7 @@ func (ck *checker) check(c caseT, record bool) (v verdictT, ok bool) {
 		run.Errorf("instrumented run differs from the plain run: %v vs %v", tr.out, pl)
 		return v, false
 	}
-	s := runDebug(c.Src, c.Bps, c.Cmds)
-	if s.Problem != "" && s.Out.Crash == "" {
-		s.Out.Crash = s.Problem
-	}
 	terminated := strings.Contains(c.Cmds[:min(s.CmdsUsed, len(c.Cmds))], "t")
-	disagree := func(d common.Disagreement) {
-		if record {
-			d.Input = c
-			run.Disagree(d)
-		}
-	}
 
 	// (a) behaviour as the plain run
 	same := s.Out.Stdout == pl.Stdout && s.Out.Stderr == pl.Stderr && s.Out.Res == pl.Res && s.Out.Err == pl.Err && s.Out.Crash == pl.Crash
@@ -153,8 +174,8 @@ func (ck *checker) check(c caseT, record bool) (v verdictT, ok bool) {
 		}
 		fmt.Fprintln(os.Stderr, "GRAPH:")
 		for i, n := range s.Dump {
-			if n.Code != 0 {
-				fmt.Fprintf(os.Stderr, "  %d %s/%s L%d pv=%v code=%x t=%d f=%d parent=%d brk=%v/%v\n", i, n.Kind, n.Action, n.Line, n.PosValid, n.Code, n.Tnext, n.Fnext, n.Parent, n.BrkLine, n.BrkCall)
+			if n.Code != 0 || os.Getenv("C19_DEBUG") == "2" {
+				fmt.Fprintf(os.Stderr, "  %d %s/%s L%d pv=%v code=%x clo=%x fwd=%x t=%d f=%d parent=%d brk=%v/%v\n", i, n.Kind, n.Action, n.Line, n.PosValid, n.Code, n.Clo, n.Forward, n.Tnext, n.Fnext, n.Parent, n.BrkLine, n.BrkCall)
 			}
 		}
 		fmt.Fprintln(os.Stderr, "IMPL:", joinEvents(s.Events))
@@ -164,13 +185,17 @@ func (ck *checker) check(c caseT, record bool) (v verdictT, ok bool) {
 	marks, marksS := marksOf(s.Dump)
 	ref := refEvents(s.Dump, marks, c.Cmds, tr.tape)
 	class := classOf(s.Dump, tr.tape)
-	// the decidable domain, computed twice
-	sep := "1"
+	// the decidable hypotheses, computed twice
+	sep, idsep := "1", "1"
 	if ambiguousBranch(s.Dump) {
 		sep = "0"
 	}
-	if ans["sep"] != sep || ans["resp"] != followsEdges(s.Dump, tr.tape) {
-		run.Errorf("domain predicates differ: lean sep=%s resp=%s, go sep=%s resp=%s", ans["sep"], ans["resp"], sep, followsEdges(s.Dump, tr.tape))
+	if sharedClosure(s.Dump) {
+		idsep = "0"
+	}
+	resp, forwards := followsEdges(s.Dump, tr.tape)
+	if ans["sep"] != sep || ans["idsep"] != idsep || ans["resp"] != resp {
+		run.Errorf("hypothesis predicates differ: lean sep=%s idsep=%s resp=%s, go sep=%s idsep=%s resp=%s", ans["sep"], ans["idsep"], ans["resp"], sep, idsep, resp)
 	}
 	implS, refS := joinEvents(stops), joinEvents(ref)
 	if implS != ans["y"] {
@@ -192,21 +217,68 @@ func (ck *checker) check(c caseT, record bool) (v verdictT, ok bool) {
 	if refS != ans["g"] {
 		disagree(common.Disagreement{Kind: "spec-vs-ref", Spec: ans["g"], Ref: refS})
 	}
-	v = verdictT{BreaksImpl: breaks(stops), BreaksRef: breaks(ref), Class: class, Stops: len(stops)}
+	v = verdictT{BreaksImpl: breaks(stops), BreaksRef: breaks(ref), Class: class, Stops: len(stops), SameCode: sep == "0", Forwards: forwards}
 	v.Same = v.BreaksImpl == v.BreaksRef
 	if !v.Same {
 		d := common.Disagreement{Kind: "impl-vs-ref", Impl: v.BreaksImpl, Model: breaks(parseEvents(ans["y"])), Ref: v.BreaksRef, Finding: class,
 			Note: "break events (line@step) differ from the marked lines that execute"}
 		if implS != ans["y"] {
-			d.Finding, d.Note = "", d.Note+"; differs from the model of the unchanged code too (class "+class+")"
+			d.Finding, d.Note = "", d.Note+"; differs from the model too (class "+class+")"
 		}
 		disagree(d)
 	}
+	// line level: what the requests mean, read off the source (lines.go)
+	if kinds, ok := ck.kinds(c.Src); ok && len(s.BpValid) == len(c.Bps) {
+		modelAgrees := implS == ans["y"] && marksS == ans["marks"]
+		label := func(class string) string {
+			if !modelAgrees {
+				return ""
+			}
+			return class
+		}
+		inv := invalidStatementLines(kinds, c.Bps, s.BpValid)
+		for _, class := range sortedKeys(inv) {
+			v.LineFindings = append(v.LineFindings, class)
+			disagree(common.Disagreement{Kind: "impl-vs-ref", Impl: fmt.Sprintf("invalid: lines %v", inv[class]), Model: "marks " + ans["marks"],
+				Ref: "a statement begins on each of these lines", Finding: label(class), Note: "a line breakpoint on a statement line is refused"})
+		}
+		if !terminated && s.Out.Crash == "" {
+			miss, visits, late := unreportedVisits(s.Dump, kinds, c.Bps, s.BpValid, tr.tape, stops)
+			v.Visits, v.LateStops = visits, late
+			for _, class := range sortedKeys(miss) {
+				v.LineFindings = append(v.LineFindings, class)
+				disagree(common.Disagreement{Kind: "impl-vs-ref", Impl: "breaks " + v.BreaksImpl, Model: "marks " + ans["marks"],
+					Ref: "unreported visits (line@first step): " + strings.Join(miss[class], " "), Finding: label(class),
+					Note: "control reaches a line with a valid breakpoint and leaves it without a break stop"})
+			}
+		}
+	}
 	if class == "" && implS != refS {
-		// on the domain the whole event sequence is the reference's (theorem debug_eq_reference_partial)
-		disagree(common.Disagreement{Kind: "impl-vs-ref", Impl: implS, Ref: refS, Note: "in-domain: events differ from the reference debugger"})
+		// the whole event sequence is the reference's (theorem debug_eq_reference)
+		disagree(common.Disagreement{Kind: "impl-vs-ref", Impl: implS, Ref: refS, Note: "events differ from the reference debugger"})
 	}
 	return v, true
+}
+
+func sortedKeys[T any](m map[string]T) []string {
+	var ks []string
+	for k := range m {
+		ks = append(ks, k)
+	}
+	sort.Strings(ks)
+	return ks
+}
+
+func (ck *checker) kinds(src string) (map[int]string, bool) {
+	if k, seen := ck.stmtKinds[src]; seen {
+		return k, k != nil
+	}
+	k, ok := stmtLines(src)
+	if !ok {
+		k = nil
+	}
+	ck.stmtKinds[src] = k
+	return k, ok
 }
 
 func parseEvents(s string) []eventT {
@@ -237,7 +309,7 @@ func min(a, b int) int {
 
 func main() {
 	run := common.NewRun("C19")
-	run.Res.Rule = "case = (program, breakpoint requests set before the start, resume commands: one per stop, Continue when exhausted); programs: a fixed corpus plus seeded sequential programs (if/else with constant assignments in both arms, else-if, three-clause and condition-only loops with break/continue, range, switch, calls of helpers incl. recursion, two results, closures capturing variables, package-level initialiser calling a helper, final panic); breakpoint sets: none, every line, random lines, function breakpoints (incl. an unknown name), mixed; commands: continue only, step-entry then into/over all the way, seeded mixes of continue/into/over/out, terminate only as last command; non-trivial = the session has at least one stop; distinct = distinct (program, breakpoints, commands)"
+	run.Res.Rule = "case = (program, breakpoint requests set before the start, resume commands: one per stop, Continue when exhausted); programs: a fixed corpus (the replays of the repaired findings F20 and F19-1, the regression programs of their repairs: two loops, nested loops, labelled continue, goto loops, else-if chains, switches, type switch, short circuits, a generic function) plus seeded sequential programs (if/else whose arms are made by one generator: constant assignments, ++, +=, calls, prints, returns; else-if chains; short-circuit conditions; three-clause, condition-only and condition-less loops with break/continue, twin loops of one shape, continue of an outer loop, label+goto loops, loops in helpers entered several times, range, switch, calls of helpers incl. recursion, two results, closures capturing variables, a generic helper in 1 program of 30, final panic); breakpoint sets: none, every line, random lines, function breakpoints (incl. an unknown name), mixed; commands: continue only, step-entry then into/over all the way, seeded mixes of continue/into/over/out, terminate only as last command; line level (go/parser): a request on a line where a statement begins must be valid, and every visit of a validly requested line by control must contain a break stop; non-trivial = the session has at least one stop; distinct = distinct (program, breakpoints, commands)"
 	defer run.Finish()
 	drv, err := common.StartDriver("C19")
 	if err != nil {
@@ -250,7 +322,7 @@ func main() {
 		run.Errorf("known findings: %v", err)
 	}
 	ck := &checker{run: run, drv: drv, tramp: interp.VerifC19TrampolineCode(), plain: map[string]outcomeT{}, compErr: map[string]string{},
-		traceKey: map[string]traceT{}}
+		traceKey: map[string]traceT{}, stmtKinds: map[string]map[int]string{}}
 
 	if run.Replay != "" {
 		b, err := os.ReadFile(run.Replay)
@@ -279,8 +351,8 @@ func main() {
 			continue
 		}
 		v, ok := ck.check(c, false)
-		run.Res.Known = append(run.Res.Known, common.KnownReplay{ID: f.ID, Status: f.Status, What: f.What, StillFails: ok && !v.Same,
-			Detail: fmt.Sprintf("reported %s, executed %s (class %s)", v.BreaksImpl, v.BreaksRef, v.Class)})
+		run.Res.Known = append(run.Res.Known, common.KnownReplay{ID: f.ID, Status: f.Status, What: f.What, StillFails: ok && (!v.Same || v.Crash || len(v.LineFindings) > 0),
+			Detail: fmt.Sprintf("reported %s, executed %s (class %s) %s", v.BreaksImpl, v.BreaksRef, v.Class, strings.Join(v.LineFindings, " "))})
 	}
 
 	nprog := 80
@@ -319,9 +391,36 @@ func main() {
 				run.Hit("bps:" + bpNames[bk])
 				run.Hit("cmds:" + cmdNames[ckind])
 				if v.Class == "" {
-					run.Hit("class:in-domain")
+					run.Hit("hyps:hold")
 				} else {
-					run.Hit("class:" + v.Class)
+					run.Hit("hyps:" + v.Class)
+				}
+				if v.SameCode {
+					run.Hit("shape:same-generator-successors")
+				}
+				switch {
+				case v.Forwards == 0:
+					run.Hit("shape:no-back-edge-taken")
+				case v.Forwards < 10:
+					run.Hit("shape:back-edges-1-9")
+				default:
+					run.Hit("shape:back-edges-10+")
+				}
+				if v.SameCode && v.Forwards > 0 {
+					run.Hit("shape:same-generator-successors+back-edges")
+				}
+				if v.Crash {
+					run.Hit("setbreakpoints:crash")
+					continue
+				}
+				for _, lf := range v.LineFindings {
+					run.Hit("line:" + lf)
+				}
+				if v.Visits > 0 {
+					run.Hit("line:visits-checked")
+				}
+				if v.LateStops > 0 {
+					run.Hit("line:stop-after-first-node-of-the-line")
 				}
 				if v.Same {
 					run.Hit("breaks:as-reference")
